@@ -9,8 +9,8 @@ CONSTANTS
   NCalls = 1
   Resend = TRUE
   MaxDrop = 1
-  MaxDup = 1
-  MaxEarly = 1
+  MaxDup = 0
+  MaxEarly = 0
   LinkLoss = TRUE
   WaitMode = "wake"
   Bug = "none"
